@@ -13,11 +13,12 @@ from typing import Literal
 from extract import scalars
 from harness import morph
 from harness.core import Ctx
-from harness.props import c01_kinds
+from harness.props import c01_codecs, c01_kinds
 
 ID = "C01"
 PROPS_FILE = "AdaptixProofs/Props/C01.lean"
-LEAN_TARGETS = ["AdaptixProofs.Props.C01", "drv_morph"]
+EXTRA_PROPS_FILES = ["AdaptixProofs/Props/C01Codecs.lean"]
+LEAN_TARGETS = ["AdaptixProofs.Props.C01", "AdaptixProofs.Props.C01Codecs", "drv_morph"]
 EXTRACT = [scalars.emit]
 CLAIM = {
     "technique": "Lean 4 proof (fuel induction: load inverts dump on every well-typed value, per type constructor, all modes) + "
@@ -31,8 +32,10 @@ CLAIM = {
         "oracle composes the real dumper and loader on generated values in all six modes."
     ),
     "note": (
-        "Scalar codec laws (parse(format x) = x for Decimal, datetime, UUID, ... and bytes/base64) are hypotheses of the theorem, "
-        "sampled by the oracle on every run. Float arithmetic is not modelled: timedelta through total_seconds() is exact only "
+        "Scalar codec laws (parse(format x) = x for Decimal, datetime, UUID, ...) are hypotheses of the theorem, sampled by the "
+        "oracle on every run; for the bytes-like scalars the law is proved (Props/C01Codecs.lean: base64 model of the loader's "
+        "guards and of binascii, decode(encode bs) = bs for every byte string, the exact set of accepted texts, and the world WB "
+        "that instantiates the round-trip theorems with no codec hypothesis), tied by the b64-* correspondences. Float arithmetic is not modelled: timedelta through total_seconds() is exact only "
         "below 2**52 microseconds (Python's documented precision), checked by the oracle up to 100 years plus an explicit sweep "
         "of microsecond fractions. name_mapping: the model covers the default flat layout; renamed/nested/list layouts are "
         "round-tripped by the oracle here and proved at crown level in C03. Enum/Flag members are C18."
@@ -511,6 +514,7 @@ def run(ctx: Ctx):
     policy_layout_roundtrips(ctx, ctx.budget(120, 2000))
     generic_model_roundtrips(ctx, eng)
     c01_kinds.kind_roundtrips(ctx, ctx.budget(90, 2400))
+    c01_codecs.suite(ctx, eng.drv, ctx.budget(400, 8000))
 
 
 def search(ctx: Ctx):
@@ -522,6 +526,7 @@ def search(ctx: Ctx):
     policy_layout_roundtrips(ctx, 1000)
     generic_model_roundtrips(ctx, eng)
     c01_kinds.kind_roundtrips(ctx, 1200, stop_on_failure=True)
+    c01_codecs.suite(ctx, None, 3000, stop_on_failure=True)
     for spec in eng.gen_specs(2000, 4, literal_unions=True, generic_models=True):
         if eng.real.dump("DISABLE", True, spec.hint, None).get("r") == "no-dumper":
             continue
@@ -537,6 +542,8 @@ def search(ctx: Ctx):
 def replay(ctx: Ctx, case) -> bool:
     if case.get("suite") == "kind-roundtrip":
         return c01_kinds.replay(ctx, case)
+    if case.get("suite") == "b64":
+        return c01_codecs.replay(ctx, case)
     eng = morph.Engine(ctx)
     before = len(ctx.failures)
     if "timedelta" in case:
